@@ -5,7 +5,8 @@
    All theorems are unbounded in the number of rows, columns, key columns and entry lengths. *)
 From Coq Require Import ZArith List Bool Permutation Sorted.
 From EV Require Import Res Arr StableSort StableSortProofs FilterIndex FilterIndexSpec
-                       FilterIndexKernels FilterIndexSort FilterIndexFrames.
+                       FilterIndexKernels FilterIndexSort FilterIndexFrames
+                       FrameHist FrameHistSpec FrameHistP.
 Import ListNotations.
 Open Scope Z_scope.
 
@@ -172,3 +173,32 @@ Theorem c09_session_sort_on_same_correct : forall cols keys r,
   spec_sort_on cols keys None = Some r -> session_sort_on cols keys None = Ok r.
 Proof. exact session_sort_on_same_correct. Qed.
 Print Assumptions c09_session_sort_on_same_correct.
+
+(* ---- histories that cross entry-point levels (Model/FrameHist.v, Spec/FrameHistSpec.v) ------------------ *)
+(* full: one dataframe- / session-level call on a world of frames = its one-call row-level specification *)
+Theorem c09_call_on_world_correct : forall w s w',
+  spec_call w s = Some w' -> run_step w s = Ok w'.
+Proof. exact spec_call_correct. Qed.
+Print Assumptions c09_call_on_world_correct.
+
+(* full: a whole history (dataframe-level calls, Session.sort_on, writes into one column, Field.apply_index /
+   apply_filter in place on one column, Session.apply_index onto the column itself, in any order) equals the fold
+   of the one-call specifications over the frames as they stand at the time of each call *)
+Theorem c09_history_correct : forall evs w w',
+  spec_fhist w evs = Some w' -> run_fhist w evs = Ok w'.
+Proof. exact fhist_correct_pf. Qed.
+Print Assumptions c09_history_correct.
+
+(* full: the last call of any history is that call ALONE on the world the prefix leaves behind (the model keeps
+   no state between calls; the real code is tied to this by the `fh` correspondence) *)
+Theorem c09_history_last_call_alone : forall evs w w1 s,
+  run_fhist w evs = Ok w1 -> run_fhist w (evs ++ [FCall s]) = run_step w1 s.
+Proof. exact fhist_last_call_alone_pf. Qed.
+Print Assumptions c09_history_last_call_alone.
+
+(* full: after ANY history a filter / re-index / sort (in place or into a destination) whose one-call
+   precondition holds on the frames as they stand leaves exactly what the row-level specification says of them *)
+Theorem c09_call_after_any_history : forall evs w w1 s w2,
+  run_fhist w evs = Ok w1 -> spec_call w1 s = Some w2 -> run_fhist w (evs ++ [FCall s]) = Ok w2.
+Proof. exact fhist_call_after_any_history_pf. Qed.
+Print Assumptions c09_call_after_any_history.
